@@ -230,6 +230,39 @@ theorem action_ctor_not_instance_specific (name member : String) (ctorArgs args 
   · simp at hr; subst hr; rfl
   · simp at hr
 
+/-- A statement built from a flow constructor (`match some_flow(..).Finished()`) is not tied to an instance either:
+    no flow reference, and the two instance uid parameters are removed from the pattern. -/
+theorem flow_ctor_not_instance_specific (flowId member : String) (defaults args : List (String × Val)) (r : Ev)
+    (hr : refEvent (.flowCtor flowId defaults member args) = some r) :
+    r.flowUid = none ∧ lookup "flow_instance_uid" r.args = none ∧ lookup "source_flow_instance_uid" r.args = none := by
+  have hl : ∀ (k : String) (l : List (String × Val)) (p : String × Val → Bool), (∀ v, p (k, v) = false) →
+      lookup k (l.filter p) = none := by
+    intro k l p hp
+    induction l with
+    | nil => simp [lookup]
+    | cons kv rest ih =>
+      obtain ⟨k', v'⟩ := kv
+      simp only [List.filter]
+      split
+      · rename_i hk
+        simp only [lookup]
+        split
+        · rename_i e; subst e; rw [hp v'] at hk; cases hk
+        · exact ih
+      · exact ih
+  simp only [refEvent, Option.map_eq_some_iff] at hr
+  obtain ⟨e, _, he⟩ := hr
+  subst he
+  refine ⟨rfl, hl _ _ _ (by intro v; simp), hl _ _ _ (by intro v; simp)⟩
+
+/-- The type gate in front of the comparison: an internal-event statement never matches an action event and vice versa. -/
+theorem kinds_must_agree (rx : Rx) (sa : String → Option (List (String × Val))) (ev ref : Ev) (p : Option (Int × Nat))
+    (h : ev.kind ≠ .plain) (hk : ref.kind ≠ ev.kind) : matchingScore rx sa ev ref p = .zero := by
+  unfold matchingScore kindIsInstance
+  have h1 : (ev.kind == EvKind.plain) = false := by simpa using h
+  have h2 : (ref.kind == ev.kind) = false := by simpa using hk
+  simp [h1, h2]
+
 /-! ### The open finding, kernel-checked on the model of the code as it is -/
 
 /-- `{"return_value": 1}` matches `{"return_value": 2, "a": 1}` (score 0.9^1) although the
